@@ -157,6 +157,9 @@ TEval ==
         \cup Chk(has => ~Ev.viol,
                  IF Ev.kind = "x0" THEN "C02.reject_infeasible_snapped_x0"
                  ELSE "C02.no_infeasible_eval")
+        \* the evaluated point is a row the candidate filter returned in this step (initial design, search,
+        \* poll): nothing is altered or added between filtering and evaluation
+        \cup Chk(Ev.infilt, "C17.evaluated_point_was_filtered")
         \cup Chk(Ev.ntc = 1, "C03.count_honest")
         \cup Chk(Ev.fc = (IF ok THEN s.fc + 1 ELSE s.fc), "C03.count_honest")
         \cup Chk((s.budgetApplies /\ ~isinit /\ has) => Ev.n <= s.cfg.budget,
